@@ -7,7 +7,7 @@ git -C /repo worktree add -q "$WT" HEAD || exit 2
 trap 'git -C /repo worktree remove --force "$WT" 2>/dev/null; rm -rf "$WT"' EXIT
 for p in "$@"; do
   ( cd "$WT" && git checkout -q -- . && git clean -fdq && git apply "$p" ) || { echo "## $p: does not apply"; continue; }
-  out=$(/verif/bin/mqttverif -repo "$WT" -prop all -known /verif/known_findings.json -evidence /tmp/tryrf_ev 2>&1)
+  out=$(${MQTTVERIF:-/verif/bin/mqttverif} -repo "$WT" -prop all -known /verif/known_findings.json -evidence /tmp/tryrf_ev 2>&1)
   n=$(echo "$out" | grep -c '^VIOLATION')
   m=$(echo "$out" | grep -c 'exit=2')
   echo "## $p: $n false alarms, $m machinery failures"
